@@ -6,6 +6,7 @@ use std::panic::catch_unwind;
 
 mod statuslist;
 mod jws;
+mod coll;
 mod jwk;
 mod revocation;
 mod sdjwt;
@@ -26,12 +27,15 @@ pub mod c12;
 pub mod c13;
 #[path = "../../kani/src/c10.rs"]
 pub mod c10;
+#[path = "../../kani/src/c19.rs"]
+pub mod c19;
 
 fn kani_bodies() -> Vec<(&'static str, fn())> {
   let mut v: Vec<(&'static str, fn())> = Vec::new();
   v.extend_from_slice(c12::BODIES);
   v.extend_from_slice(c13::BODIES);
   v.extend_from_slice(c10::BODIES);
+  v.extend_from_slice(c19::BODIES);
   v
 }
 
@@ -83,10 +87,12 @@ fn main() {
     "did_syntax" => did::syntax(&cex),
     "credential_validation" => cred::credential_validation(&cex),
     "presentation_validation" => cred::presentation_validation(&cex),
+    "claims" => cred::claims(&cex),
     "timestamp" => ts::timestamp(&cex),
     "sd_jwt" => sdjwt::sd_jwt(&cex),
     "revocation" => revocation::bitmap(&cex),
     "jwk" => jwk::jwk(&cex),
+    "collections" => coll::collections(&cex),
     "kani" => kani_replay(&cex),
     "selftest" => selftest(),
     _ => Err(format!("unknown scenario {scenario}")),
